@@ -91,6 +91,18 @@ pub fn run_af(buf: &[u8]) -> Vec<u64> {
     let mut v = vec![];
     let af = AdaptationField::new(buf);
     obs_af(&af, buf, &mut v);
+    // the accessors are functions of the bytes alone: the same value asked again, and a second value asked in the opposite
+    // order first (extension, private data, splice countdown, OPCR, PCR), must answer the same.  If not, the observation of
+    // the second value is reported with a marker, so that it differs from the model's.
+    let mut again = vec![];
+    obs_af(&af, buf, &mut again);
+    let af2 = AdaptationField::new(buf);
+    if let Ok(e) = af2.adaptation_field_extension() { let _ = (e.seamless_splice(), e.piecewise_rate(), e.ltw_offset()); }
+    let _ = af2.transport_private_data(); let _ = af2.splice_countdown(); let _ = af2.opcr(); let _ = af2.pcr();
+    let mut rev = vec![];
+    obs_af(&af2, buf, &mut rev);
+    if again != v { again.push(777_777); return again; }
+    if rev != v { rev.push(777_778); return rev; }
     v
 }
 
